@@ -133,15 +133,27 @@ func (db *MemDB) StoreExternal(ctx context.Context, duty core.Duty, signedSet co
 
 	output := make(map[core.PubKey][]core.ParSignedData)
 
+	// firstErr is the first error encountered; the remaining validators in the batch are still
+	// processed so that an invalid entry cannot suppress the threshold trigger of another validator.
+	var firstErr error
+
 	for pubkey, sig := range signedSet {
 		subcommIdx, err := core.SyncSubcommitteeIndex(duty.Type, sig.SignedData)
 		if err != nil {
-			return err
+			if firstErr == nil {
+				firstErr = err
+			}
+
+			continue
 		}
 
 		sigs, ok, err := db.store(ctx, key{Duty: duty, PubKey: pubkey, SubcommIdx: subcommIdx}, sig, exempt)
 		if err != nil {
-			return err
+			if firstErr == nil {
+				firstErr = err
+			}
+
+			continue
 		} else if !ok {
 			log.Debug(ctx, "Ignoring duplicate partial signature")
 
@@ -152,13 +164,21 @@ func (db *MemDB) StoreExternal(ctx context.Context, duty core.Duty, signedSet co
 		// any other set that reached it did so (and was triggered) when its last member was stored.
 		matching, err := matchingSigs(duty.Type, sigs, sig)
 		if err != nil {
-			return err
+			if firstErr == nil {
+				firstErr = err
+			}
+
+			continue
 		}
 
 		// Check if sufficient matching partial signed data has been received.
 		psigs, ok, err := getThresholdMatching(duty.Type, matching, db.threshold)
 		if err != nil {
-			return err
+			if firstErr == nil {
+				firstErr = err
+			}
+
+			continue
 		} else if !ok {
 			continue
 		}
@@ -167,7 +187,7 @@ func (db *MemDB) StoreExternal(ctx context.Context, duty core.Duty, signedSet co
 	}
 
 	if len(output) == 0 {
-		return nil
+		return firstErr
 	}
 
 	// Call the threshSubs (which includes SigAgg component)
@@ -178,7 +198,7 @@ func (db *MemDB) StoreExternal(ctx context.Context, duty core.Duty, signedSet co
 		}
 	}
 
-	return nil
+	return firstErr
 }
 
 // matchingSigs returns the partial signatures that have the same message root as the provided one.
